@@ -15,7 +15,7 @@ Inductive redir :=
 | RHereDoc (n : option nat) (body : str)               (* [n]<<tag : the document text *)
 | RHereStr (n : option nat) (w : str).                 (* [n]<<<word : the expanded word *)
 
-Inductive rerr := EBadFd (n : nat) | EOpenFail (path : nat) (e : errno) | EInvalidRedir.
+Inductive rerr := EBadFd (n : nat) | EOpenFail (path : nat) (e : errno) | EInvalidRedir (path : nat).
 
 (** [get_default_fd_for_redirect_kind] (checked against the source by gen/RedirDefaults.v). *)
 Definition default_fd (k : rkind) : nat :=
@@ -69,7 +69,7 @@ Definition setup_redirect (nc : bool) (P : tbl) (w : world) (L : tbl) (r : redir
       inl (w, tset L fdn None)
   | RDupWord n path =>
       let fdn := match n with Some n => n | None => 1 end in
-      if Nat.eqb fdn 1 then both_to w L path false else inr EInvalidRedir
+      if Nat.eqb fdn 1 then both_to w L path false else inr (EInvalidRedir path)
   | RHereDoc n body =>
       let '(w', id) := k_pipe_with w body in
       inl (w', tset L (match n with Some n => n | None => 0 end) (Some id))
